@@ -1,5 +1,5 @@
 import Urandom.Model.Seq
-import Urandom.Generated.GlueRandom
+import Urandom.Generated.GlueRandomDistr
 import Urandom.Generated.GlueDistr
 /-!
 # `Uniform<T>`, `Random::range`, `Random::choose` as translated from the source (C04, C05, C06)
